@@ -32,7 +32,6 @@ from typing import TYPE_CHECKING, Any, Protocol
 
 from happysimulator.core.entity import Entity
 from happysimulator.core.event import Event
-from happysimulator.core.temporal import Instant
 
 if TYPE_CHECKING:
     from collections.abc import Callable, Generator
@@ -495,9 +494,9 @@ class StreamProcessor(Entity):
                 yield 0.0
                 return [
                     Event(
-                        time=Instant.from_seconds(
-                            self.now.to_seconds() + self._watermark_interval_s
-                        ),
+                        # Integer clock arithmetic: a float round trip of `now` can
+                        # truncate the tick back onto, or before, the current instant.
+                        time=self.now + self._watermark_interval_s,
                         event_type="Watermark",
                         target=self,
                         context={"watermark_s": event_time_s},
@@ -520,7 +519,7 @@ class StreamProcessor(Entity):
             result_events = self._emit_closed_windows()
 
             # Reschedule watermark
-            next_time = Instant.from_seconds(self.now.to_seconds() + self._watermark_interval_s)
+            next_time = self.now + self._watermark_interval_s
             # Advance watermark based on simulation time
             next_watermark = self.now.to_seconds()
             result_events.append(
